@@ -21,7 +21,10 @@ REGISTRATION = {
             "create's loop over several models in one upload (server/create.go ggufLayers) is modelled on top, with "
             "non-termination as an explicit outcome: it terminates (every successful decode ends after the position it "
             "started at: decodeFrom_progress) and is safe for every byte string (create_terminates_tree, create_safe_tree); "
-            "upstream's pinned decoder has a 57-byte witness on which create never answers. The typed metadata accessors the "
+            "upstream's pinned decoder has a 57-byte witness on which create never answers. Running time and result size as functions of "
+            "the input length (decode_total_tree): the decoder model with an iteration counter on every loop is the decoder model "
+            "(erasure) and executes at most len+1 loop iterations whatever 64-bit counts the file declares; a returned value retains at "
+            "most len+24 bytes/cells; both for every guard set (decode_steps_any_guards). The typed metadata accessors the "
             "handlers call on the decoded key/values (Kind, Architecture, FileType, ChatTemplate, vision.block_count → media "
             "type) are in the model with the failed type assertion as an outcome: never reached on the tree "
             "(create_upload_safe_tree), 60-byte witness for upstream's unchecked assertion. "
@@ -44,6 +47,8 @@ THEOREMS = [
     "OllamaVerif.C10.decode_safe_tree",
     "OllamaVerif.C10.decode_safe_hardened",
     "OllamaVerif.C10.decode_safe_partial",
+    "OllamaVerif.C10.decode_total_tree",
+    "OllamaVerif.C10.decode_steps_any_guards",
     "OllamaVerif.C10.create_terminates_tree",
     "OllamaVerif.C10.create_safe_tree",
     "OllamaVerif.C10.create_layers_within",
@@ -65,7 +70,17 @@ THEOREMS = [
 OVERLAY = {
     "fs/ggml/zz_verif_gguf_test.go": "fs_ggml/zz_verif_gguf_test.go",
     "fs/ggml/zz_verif_c10_test.go": "fs_ggml/zz_verif_c10_test.go",
+    "fs/ggml/zz_verif_c10_sites_test.go": "fs_ggml/zz_verif_c10_sites_test.go",
 }
+# every reader of the decoder model / every outcome class must be reached by this run's inputs (generator counters and
+# outcome classes of the REAL decoder); otherwise the L1 comparison says nothing about that branch -> fail closed
+REQUIRED_GEN = ["gen_crafted", "gen_valid", "gen_truncate", "gen_field64", "gen_field32", "gen_header", "gen_version",
+                "gen_truncate-all", "gen_site_template", "gen_site_alignment-typed", "gen_site_key-len", "gen_site_string-len",
+                "gen_site_array-count", "gen_site_array-type", "gen_site_array-string-len", "gen_site_skipped-string-len",
+                "gen_site_tensor-name-len", "gen_site_tensor-dims", "gen_site_tensor-dim", "gen_site_tensor-kind",
+                "gen_site_tensor-offset", "gen_site_header-tensors", "gen_site_header-kvs", "gen_site_value-type",
+                "gen_site_alignment-value"]
+REQUIRED_CLASSES = ["ok", "err:eof", "err:ueof", "err:invalid"]
 API_OVERLAY = {"server/zz_verif_c10_test.go": "server/zz_verif_c10_test.go"}
 RLIMIT = 3 << 30
 
@@ -139,14 +154,18 @@ def run(ctx):
     if ctx.replay:
         ops = ctx.replay_line_file()
     else:
-        env = ctx.run_env(outdir, {"VERIF_N": ctx.scale(2500, 60000), "VERIF_TRUNC_MAX": ctx.scale(700, 6000)})
+        env = ctx.run_env(outdir, {"VERIF_N": ctx.scale(2500, 60000), "VERIF_TRUNC_MAX": ctx.scale(700, 6000),
+                                   "VERIF_SITES_MAX": ctx.scale(12000, 1000000)})
         p = subprocess.run([binary, "-test.run", "^TestVerifC10Gen$"], env=env, cwd=outdir,
                            stdout=subprocess.PIPE, stderr=subprocess.STDOUT, text=True)
         if p.returncode != 0:
             ctx.violation("driver-failed", "", p.stdout[-1500:], no_input=True)
             return ctx.finish(rule="generator failed")
         ops = os.path.join(outdir, "ops.txt")
-        ctx.read_stats(outdir)
+        gst = ctx.read_stats(outdir)
+        gmissing = [k for k in REQUIRED_GEN if gst.get(k, 0) == 0]
+        if gmissing:
+            ctx.violation("correspondence-coverage", "", "input classes never generated in this run: " + ", ".join(gmissing), no_input=True)
     oplines = [l.rstrip("\n") for l in open(ops)]
     impl = run_worker(ctx, binary, ops, outdir, len(oplines))
     model_path = os.path.join(outdir, "model.txt")
@@ -178,6 +197,10 @@ def run(ctx):
     ctx.coverage["l1_distinct_ops"] = len(distinct)
     ctx.coverage["outcome_classes"] = dict(sorted(classes.items()))
     ctx.coverage["gray_zone_inputs"] = gray
+    if not ctx.replay:
+        cmissing = [k for k in REQUIRED_CLASSES if classes.get(k, 0) == 0]
+        if cmissing:
+            ctx.violation("correspondence-coverage", "", "outcome classes of the real decoder never observed in this run: " + ", ".join(cmissing), no_input=True)
     if not ctx.samples and oplines:
         ctx.samples.append({"op": core.clip(oplines[0]), "impl": core.clip(impl[0]), "model": core.clip(model[0])})
     # Directed search: the model and the decoder disagree on some input but the decoder did not misbehave on
